@@ -289,4 +289,26 @@ MUTANTS = {
     "adv_equalized_odds_y_not_passed": {
         "props": ["C16"], "what": "equalized odds: adversary sees Y_hat twice instead of (Y_hat, Y)",
         "edits": [(PE, "            Y_hat = torch.cat((Y_hat, Y), dim=1)", "            Y_hat = torch.cat((Y_hat, Y_hat.detach()), dim=1)")]},
+    # ---------------------------------------------------------------- C17 adversarial schedule / predict
+    "adv_slice_end_off_by_one": {
+        "props": ["C17"], "what": "batch slice end one row short",
+        "edits": [(AM, "                    min((batch + 1) * batch_size, X.shape[0]),", "                    min((batch + 1) * batch_size, X.shape[0]) - (1 if batch > 0 else 0),")]},
+    "adv_last_partial_batch_dropped": {
+        "props": ["C17"], "what": "floor instead of ceil: last partial batch dropped",
+        "edits": [(AM, "        batches = ceil(X.shape[0] / batch_size)", "        batches = max(1, X.shape[0] // batch_size)")]},
+    "adv_callbacks_before_max_iter_check": {
+        "props": ["C17"], "what": "callbacks run before the max_iter check",
+        "edits": [(AM, "                if self.max_iter != -1 and self.n_iter_ >= self.max_iter:\n                    return self\n\n                if self.callbacks_:", "                if self.callbacks_:")]},
+    "adv_callback_step_from_zero": {
+        "props": ["C17"], "what": "callbacks receive step numbers starting at 0",
+        "edits": [(AM, "                            self, step=self.n_iter_, X=X, y=y, z=sensitive_features, pos_label=1", "                            self, step=self.n_iter_ - 1, X=X, y=y, z=sensitive_features, pos_label=1")]},
+    "adv_binary_threshold_strict": {
+        "props": ["C17"], "what": "pred > threshold instead of >=",
+        "edits": [(AM, "        return (pred >= self.threshold_value).astype(float)", "        return (pred > self.threshold_value).astype(float)")]},
+    "adv_stop_only_first_callback": {
+        "props": ["C17"], "what": "only the first callback's return value can stop training",
+        "edits": [(AM, "                        stop = stop or result", "                        stop = stop or (result and cb is self.callbacks_[0])")]},
+    "rev_fix_adversarial_refit": {
+        "props": ["C19"], "what": "revert fix aba7a15: refit continues training",
+        "edits": [(AM, "        if not self.warm_start and hasattr(self, \"classes_\"):\n            # without warm_start, fit() discards what earlier calls learned\n            del self.classes_\n", "")]},
 }
